@@ -149,6 +149,7 @@ func main() {
 	wg.Wait()
 	rep.Sample(cases[len(cases)/2])
 	exportDuringImport(rep, args.Seed)
+	namedDatabases(rep)
 	rep.Finish()
 }
 
